@@ -13,7 +13,7 @@ as a JSON array (`visit_seq`: positional, exact length – an absent trailing `O
 defaulted there).  `u16` fields are `UInt16`, sets (`LinkedHashSet<String>`) are lists; the only
 well-formedness a serialisable value needs is that its sets are duplicate-free (`Action.WF`).
 -/
-import RioModel.Model.Json
+import RioModel.Model.JsonAtoms
 
 namespace Rio.Json
 
@@ -135,8 +135,8 @@ structure PathAndQuery where
 deriving DecidableEq, Repr, Inhabited
 
 /-- `http::Request`.  `remote_addr` (`std::net::IpAddr`) and `created_at`
-(`chrono::DateTime<Utc>`) are opaque atoms represented by their canonical text (what their
-`Serialize` impls print). -/
+(`chrono::DateTime<Utc>`) are the concrete values of Model/JsonAtoms.lean; they travel as the strings
+their `Display` / `Serialize` impls print (`showIp`, `showDt`). -/
 structure Request where
   path_and_query_skipped : PathAndQuery
   path_and_query : Option String
@@ -144,21 +144,42 @@ structure Request where
   scheme : Option String
   method : Option String
   headers : List Header
-  remote_addr : Option String
-  created_at : Option String
+  remote_addr : Option Ip
+  created_at : Option DateTime
   sampling_override : Option Bool
 deriving DecidableEq, Repr, Inhabited
 
-/-- The two opaque atom parsers (`IpAddr::from_str`, chrono's RFC 3339 parser followed by the
-conversion to UTC), each returning the canonical text of the parsed value. -/
+/-- The real atom parsers as an ORACLE for spellings the concrete readers of Model/JsonAtoms.lean do not
+cover (they read canonical texts only; `IpAddr::from_str` and chrono's RFC 3339 reader accept more:
+upper-case hex, uncompressed IPv6, offsets, a space for `T` …): each maps a text to the canonical text
+of the value it denotes.  No law is assumed of the oracle: the round-trip theorems never consult it. -/
 structure Codec where
   parseIp : String → Option String
   parseDt : String → Option String
 
-/-- A request only carries canonical atoms: printing then parsing gives the same value back. -/
-def Request.WF (P : Codec) (q : Request) : Prop :=
-  (∀ ip, q.remote_addr = some ip → P.parseIp ip = some ip) ∧
-  (∀ dt, q.created_at = some dt → P.parseDt dt = some dt)
+/-- `IpAddr::from_str`: the concrete reader first, otherwise the oracle's canonical text read concretely. -/
+def readIp (P : Codec) (s : String) : Option Ip :=
+  match parseIp s.toList with
+  | some x => some x
+  | none => (P.parseIp s).bind fun c => parseIp c.toList
+
+/-- `DateTime<Utc>`'s `Deserialize` (RFC 3339, converted to UTC). -/
+def readDt (P : Codec) (s : String) : Option DateTime :=
+  match parseDt s.toList with
+  | some d => some d
+  | none => (P.parseDt s).bind fun c => parseDt c.toList
+
+/-- The representation invariant of `DateTime<Utc>`: the calendar fields denote an instant chrono can
+represent.  (Nothing is required of the address.) -/
+def Request.WF (q : Request) : Prop := ∀ d, q.created_at = some d → d.Valid
+
+instance (q : Request) : Decidable q.WF := by
+  unfold Request.WF
+  cases q.created_at with
+  | none => exact isTrue (by intro d h; cases h)
+  | some d =>
+    exact if h : d.Valid then isTrue (by intro d' h'; cases h'; exact h)
+          else isFalse (fun hh => h (hh d rfl))
 
 /-! ### Serialisation (`#[derive(Serialize)]`: every field, declaration order) -/
 
@@ -250,8 +271,8 @@ def serRequest (q : Request) : Json :=
         ("scheme", serOption .str q.scheme),
         ("method", serOption .str q.method),
         ("headers", serVec serHeader q.headers),
-        ("remote_addr", serOption .str q.remote_addr),
-        ("created_at", serOption .str q.created_at),
+        ("remote_addr", serOption (fun x => .str (String.ofList (showIp x))) q.remote_addr),
+        ("created_at", serOption (fun d => .str (String.ofList (showDt d))) q.created_at),
         ("sampling_override", serOption .bool q.sampling_override)]
 
 /-! ### Deserialisation (`#[derive(Deserialize)]`) -/
@@ -321,11 +342,6 @@ def deTextBodyFilter : Json → Option TextBodyFilter
     let target_hash ← deOption deString t
     pure ⟨action, content, id, target_hash⟩
   | _ => none
-
-/-- serde_json's recursion limit: a value nested in `base` containers may itself be at most
-`127 - base` containers deep.  It only bites where the value is *buffered* (`Content`, for the
-untagged enum); skipped unknown fields are consumed iteratively, without the limit. -/
-def recursionLimit : Nat := 127
 
 /-- `#[serde(untagged)] enum BodyFilter { Text(..), HTML(..) }`: buffer the value, try `Text`,
 then `HTML`, else "data did not match any variant".  `base` = number of enclosing containers.
@@ -480,7 +496,7 @@ def dePathAndQuery : Json → Option PathAndQuery
   | _ => none
 
 /-- an atom travels as a JSON string handed to its parser. -/
-def deAtom (parse : String → Option String) : Json → Option String
+def deAtom {α : Type} (parse : String → Option α) : Json → Option α
   | .str s => parse s
   | _ => none
 
@@ -492,8 +508,8 @@ def deRequest (P : Codec) : Json → Option Request
     let scheme ← optField deString kvs "scheme"
     let method ← optField deString kvs "method"
     let headers ← reqField (deVec deHeader) kvs "headers"
-    let remote_addr ← optField (deAtom P.parseIp) kvs "remote_addr"
-    let created_at ← optField (deAtom P.parseDt) kvs "created_at"
+    let remote_addr ← optField (deAtom (readIp P)) kvs "remote_addr"
+    let created_at ← optField (deAtom (readDt P)) kvs "created_at"
     let sampling_override ← optField deBool kvs "sampling_override"
     pure ⟨paq, v2, host, scheme, method, headers, remote_addr, created_at, sampling_override⟩
   | .arr [p, v, h, s, m, hs, ra, ca, so] => do
@@ -503,10 +519,26 @@ def deRequest (P : Codec) : Json → Option Request
     let scheme ← deOption deString s
     let method ← deOption deString m
     let headers ← deVec deHeader hs
-    let remote_addr ← deOption (deAtom P.parseIp) ra
-    let created_at ← deOption (deAtom P.parseDt) ca
+    let remote_addr ← deOption (deAtom (readIp P)) ra
+    let created_at ← deOption (deAtom (readDt P)) ca
     let sampling_override ← deOption deBool so
     pure ⟨paq, v2, host, scheme, method, headers, remote_addr, created_at, sampling_override⟩
   | _ => none
+
+/-! ### `from_str`: the reader, then the derived `Deserialize` -/
+
+/-- `serde_json::from_str::<Action>` on a document. -/
+def deActionText (cs : List Char) : Option Action := (parseText cs).bind deAction
+
+/-- `serde_json::from_str::<Request>`. -/
+def deRequestText (P : Codec) (cs : List Char) : Option Request := (parseText cs).bind (deRequest P)
+
+/-- `serde_json::from_str` into a type that keeps everything (`deserialize_any`: serde_json's
+own `Value`, or the harness's ordered tree): every token is *read*, so junk and nesting beyond
+the recursion limit are errors. -/
+def parseAny (cs : List Char) : Option Json :=
+  match parseText cs with
+  | some j => if hasJunk j || depth j > recursionLimit then none else some j
+  | none => none
 
 end Rio.Json
